@@ -91,7 +91,8 @@ def rv(x) -> z3.ArithRef:
         return z3.RealVal(x)
     if isinstance(x, float):
         if x != x or x in (float("inf"), float("-inf")):
-            raise ValueError("non-finite literal")
+            from .values import Unsupported
+            raise Unsupported("non-finite float reached real arithmetic (outside A1)")
         f = Fraction(x)
         return z3.RealVal(f"{f.numerator}/{f.denominator}")
     if isinstance(x, Fraction):
